@@ -247,13 +247,19 @@ class ForwardScheduler(IScheduler):
         if _task.id in calculated:
             return
 
-        for pred in _task.predecessors:
+        # Task can't start before end of its own predecessors and predecessors of all its parents.
+        # min_date is the project start: every task collects its own bounds, whatever path it was reached by
+        prerequisites = []
+        for t in [_task] + [p for p in _task.all_parents]:
+            prerequisites += [p for p in t.predecessors]
+
+        for pred in prerequisites:
             self.__forward_pass(pred, min_date, resource_usage, calculated)
 
-        max_predecessor_ends = max([t.end for t in _task.predecessors if t.end is not None] + [min_date])
+        max_predecessor_ends = max([t.end for t in prerequisites if t.end is not None] + [min_date])
 
         for ch in _task.children:
-            self.__forward_pass(ch, max_predecessor_ends, resource_usage, calculated)
+            self.__forward_pass(ch, min_date, resource_usage, calculated)
 
         resource = self.__resources.setdefault(_task.resource, Resource(_task.resource))
 
@@ -419,13 +425,19 @@ class BackwardScheduler(IScheduler):
         if _task.id in calculated:
             return
 
-        for pred in _task.successors:
-            self.__backward_pass(pred, min_date, resource_usage, calculated)
+        # Task can't end after start of its own successors and successors of all its parents.
+        # min_date is the project end: every task collects its own bounds, whatever path it was reached by
+        followers = []
+        for t in [_task] + [p for p in _task.all_parents]:
+            followers += [p for p in t.successors]
 
-        min_successor_starts = min([t.start for t in _task.successors if t.start is not None] + [min_date])
+        for succ in followers:
+            self.__backward_pass(succ, min_date, resource_usage, calculated)
+
+        min_successor_starts = min([t.start for t in followers if t.start is not None] + [min_date])
 
         for ch in reversed(_task.children):
-            self.__backward_pass(ch, min_successor_starts, resource_usage, calculated)
+            self.__backward_pass(ch, min_date, resource_usage, calculated)
 
         resource = self.__resources.setdefault(_task.resource, Resource(_task.resource))
 
